@@ -322,7 +322,16 @@ func (s *state) Enqueue(task *Task) (nwait int) {
 	}
 	for _, task := range task.Phase() {
 		switch task.State() {
-		case TaskOk, TaskErr:
+		case TaskOk:
+		case TaskErr:
+			// A task in error never completes: it must not count as a
+			// satisfied dependency (or root). Fail the evaluation and keep
+			// its dependents waiting.
+			if s.err == nil {
+				msg := fmt.Sprintf("error running %s", task.Name)
+				s.err = errors.E(msg, task.err)
+			}
+			nwait++
 		case TaskWaiting, TaskRunning:
 			s.schedule(task)
 			nwait++
